@@ -27,6 +27,17 @@ correspondence run ties them to `SORPrecond`, `SSORPrecond`, `JacobiPrecond`, `I
 `Csr.entry i j`; `sortedDiag` is the documented precondition (square, sorted rows, stored diagonal); the correction
 filter is `filterCor` (unit filter: listed components are set to zero).
 
+Unbounded types.  The models use unbounded `Nat` / `Int` and exact field elements where the C++ uses machine types:
+`Index` / `IT_` (64-bit here; FEAT also instantiates 32-bit `unsigned int`) for sizes, offsets and column indices;
+`int` for the ILU fill level `p` and for the per-entry levels (`std::vector<int> new_lvl_*`, `ll = lj + lk + 1`); `Index`
+for the polynomial degree `m`; template `int` block sizes (the `Tiny::Matrix` inverse has closed formulas up to 6×6 and
+a generic elimination from 7×7 on); `SparseVector` (unit-filter entries) grows in 1000-slot steps; the scalar is the
+exact rational `Q`, not `double`.  Narrowing, fixed-size scratch storage, allocation steps and code paths selected by
+a size are therefore invisible to the theorems below; they are tied to the code only by the correspondence stream
+`boundary-sizes` of `checks/props/c08.py` (matrix sizes, fill-in counts of one row, filter entry counts, fill levels,
+polynomial degrees and block sizes just below / at / above 128, 256, 1000, (thorough) 32768, 65536, `INT_MAX`, 4..7),
+compared with the model and the independent oracle like every other case.
+
 Not proved here (observed by the correspondence run and the independent oracle only): the blocked ILU factorisation `L·U = A` (its solves are proved over an arbitrary ring; the factorisation is compared
 with the model run at bs×bs blocks), and the BCSR Jacobi / matrix variants.
 -/
